@@ -86,6 +86,19 @@ func (in *manager) Create(r *http.Request, tokens *openid.Tokens, sessionLifetim
 		return nil, fmt.Errorf("encrypting session data: %w", err)
 	}
 
+	// A refresh of an earlier session under the same key (the identity provider re-uses the sid) may be in flight.
+	// Wait for it, so that its write-back cannot land on top of the session created here.
+	lock := in.store.MakeLock(key)
+	if err := acquireLock(r.Context(), lock); err != nil {
+		return nil, fmt.Errorf("while acquiring lock: %w", err)
+	}
+	defer func(lock Lock, ctx context.Context) {
+		err := lock.Release(ctx)
+		if err != nil && !errors.Is(err, context.Canceled) {
+			mw.LogEntryFrom(r).Warnf("session: releasing lock: %+v", err)
+		}
+	}(lock, r.Context())
+
 	if err := retry.Do(r.Context(), func(ctx context.Context) error {
 		err = in.store.Write(r.Context(), key, encrypted, sessionLifetime)
 		return retry.RetryableError(err)
@@ -162,31 +175,7 @@ func (in *manager) Refresh(r *http.Request, sess *Session) (*Session, error) {
 	lock := in.store.MakeLock(sess.ticket.Key())
 
 	logger.Debug("session: acquiring lock...")
-	err := func() error {
-		timeout := time.NewTimer(refreshAcquireLockTimeout)
-		defer timeout.Stop()
-
-		ticker := time.NewTicker(refreshAcquireLockRetryInterval)
-		defer ticker.Stop()
-
-		for {
-			select {
-			case <-ctx.Done():
-				return fmt.Errorf("context done: %w", ctx.Err())
-			case <-timeout.C:
-				return fmt.Errorf("timed out")
-			case <-ticker.C:
-				err := lock.Acquire(ctx, refreshLockDuration)
-				if err == nil {
-					return nil
-				}
-
-				if !errors.Is(err, ErrAcquireLock) {
-					return err
-				}
-			}
-		}
-	}()
+	err := acquireLock(ctx, lock)
 	if err != nil {
 		return nil, fmt.Errorf("while acquiring lock: %w", err)
 	}
@@ -291,4 +280,31 @@ func (in *manager) update(ctx context.Context, sess *Session) error {
 	}
 
 	return nil
+}
+
+// acquireLock polls for the lock until it is acquired, the context is done, or refreshAcquireLockTimeout has passed.
+func acquireLock(ctx context.Context, lock Lock) error {
+	timeout := time.NewTimer(refreshAcquireLockTimeout)
+	defer timeout.Stop()
+
+	ticker := time.NewTicker(refreshAcquireLockRetryInterval)
+	defer ticker.Stop()
+
+	for {
+		select {
+		case <-ctx.Done():
+			return fmt.Errorf("context done: %w", ctx.Err())
+		case <-timeout.C:
+			return fmt.Errorf("timed out")
+		case <-ticker.C:
+			err := lock.Acquire(ctx, refreshLockDuration)
+			if err == nil {
+				return nil
+			}
+
+			if !errors.Is(err, ErrAcquireLock) {
+				return err
+			}
+		}
+	}
 }
